@@ -44,6 +44,20 @@ pub trait Attack: Scheme {
         proof: &Proof<Self>,
         ops: &[OpRaw],
     ) -> Mutated<Self>;
+
+    /// A scheme-specific forgery built with the library's own prover (not a mutation of an honest
+    /// proof): a proof and the (false) values it is meant to prove against the session's honest
+    /// commitments. `None` = the scheme has none in the catalogue, or the prover refused.
+    fn forge(_sess: &Session<Self>, _order: &[usize], _point: &Self::Pt, _sel: u64) -> Option<Forged<Self>> {
+        None
+    }
+    const HAS_FORGE: bool = false;
+}
+
+pub struct Forged<S: Scheme> {
+    pub proof: Proof<S>,
+    pub claimed: Vec<S::F>,
+    pub desc: String,
 }
 
 fn rand_g1(seed: u64) -> G1A {
@@ -155,6 +169,46 @@ fn rand_j(seed: u64) -> JAff {
 }
 
 impl Attack for Ipa {
+    const HAS_FORGE: bool = true;
+    /// "IPA rounds log_d + k with padded/identity generators": the library's prover run under a
+    /// committer key whose generator list is the honest one followed by identity elements, on
+    /// q_i = p_i + X^n * t_i, against commitment(p_i) and its state. Under the padded key q_i has the
+    /// commitment of p_i, the proof has log2(n) + k rounds, and the claim is q_i(z) != p_i(z).
+    fn forge(sess: &Session<Self>, order: &[usize], point: &JFr, sel: u64) -> Option<Forged<Self>> {
+        use ark_poly::{DenseUVPolynomial, Polynomial};
+        use ark_poly_commit::{LabeledPolynomial, PolynomialCommitment};
+        let ck = &sess.keys.ck;
+        let n = ck.comm_key.len();
+        let k = 1 + ((sel >> 44) % 2) as usize;
+        let big = n << k;
+        let mut key = ck.comm_key.clone();
+        key.resize(big, JAff::zero());
+        let pck = ipa_pc::CommitterKey { comm_key: key, h: ck.h, s: ck.s, max_degree: ck.max_degree };
+        let mut lqs = Vec::new();
+        for (j, i) in order.iter().enumerate() {
+            let mut co = sess.polys[*i].polynomial().coeffs().to_vec();
+            co.resize(n, JFr::zero());
+            let mut g = rng(sel ^ (0x51ed + j as u64));
+            let extra = 1 + (g.next_u64() as usize) % (big - n);
+            for _ in 0..extra {
+                co.push(nz::<JFr>(g.next_u64()));
+            }
+            lqs.push(LabeledPolynomial::new(
+                sess.polys[*i].label().clone(),
+                JUniPoly::from_coefficients_vec(co),
+                sess.meta[*i].bound,
+                sess.meta[*i].hiding,
+            ));
+        }
+        let cs: Vec<_> = order.iter().map(|i| &sess.comms[*i]).collect();
+        let ss: Vec<_> = order.iter().map(|i| &sess.states[*i]).collect();
+        let mut sp = sess.sponge();
+        let mut r = rng(sel ^ 0xf9);
+        let out = crate::util::guard(|| IpaPC::open(&pck, lqs.iter(), cs, point, &mut sp, ss, Some(&mut r)));
+        let crate::util::Out::Ok(proof) = out else { return None };
+        let claimed = lqs.iter().map(|q| q.polynomial().evaluate(point)).collect();
+        Some(Forged { proof, claimed, desc: format!("prover run under a key of {n} generators padded with {} identity elements ({} rounds)", big - n, n.trailing_zeros() as usize + k) })
+    }
     fn mutate(
         _sess: &Session<Self>,
         _order: &[usize],
